@@ -301,6 +301,18 @@ def build_finite(tier, seed):
                     d.vals.append(float_bound(k, ty, arg[0], None, arg[1], d))
             d.const_fn = True
             d.derives = list(der)
+        # sanitizers that can turn a finite input into inf / NaN: `finite` must be checked on the sanitized value (const and non-const paths)
+        bigmul = "x * 1e30" if ty == "f32" else "x * 1e300"
+        for (body, const_ok) in ((bigmul, True), ("x / (x - x)", True), ("(x - x) / (x - x)", True), ("if x == 0.0 { x / x } else { x }", True), ("x * x * x * x", True), ("1.0 / x", True)):
+            for cf in (False, True):
+                for extra in (None, ("less_or_equal", ("64.0", Fraction(64)))):
+                    d = b.new(inner_float(ty), tags=list(tags))
+                    add_with_sanitizer(d, body, "path", const=cf)
+                    d.vals.append(Vld("finite"))
+                    if extra:
+                        d.vals.insert(0, float_bound(extra[0], ty, extra[1][0], None, extra[1][1], d))
+                    d.const_fn = cf
+                    d.derives = list(der)
         # invalid (non-finite) defaults: Default::default() must panic rather than hand out NaN / inf
         import math
         for (txt, den) in ((f"{ty}::NAN", float_denote(ty, math.nan) if False else None), (f"{ty}::INFINITY", float_denote(ty, math.inf)), (f"-{ty}::INFINITY", float_denote(ty, -math.inf))):
@@ -433,4 +445,51 @@ def build_defaults(tier, seed):
                 d.vals.append(Vld(k, None if v is None else str(v), v))
             d.default = (rust_str(dflt), dflt)
             d.derives = ["Debug", "Default", "TryFrom", "FromStr"]
+    return b.decls
+
+
+def build_unchecked(tier, seed):
+    """Declarations carrying the `new_unchecked` flag: the flag must not change any guarded entry point (C01, C03), and values stored
+    through `unsafe { new_unchecked }` are exposed / compared transparently like any other (C13)."""
+    b = Builder("u", tier, seed)
+    tags = ["C01", "C03", "C13", "C11", "unchecked"]
+    for ty in ("i32", "u8", "i64"):
+        for hv in (True, False):
+            d = b.new(inner_int(ty), tags=list(tags))
+            if hv:
+                d.vals.append(int_bound("greater", ty, 0, "lit", d))
+                d.vals.append(int_bound("less_or_equal", ty, 100, "lit", d))
+            else:
+                add_with_sanitizer(d, "x.min(100)", "closure")
+            d.new_unchecked = True
+            d.derives = ["Debug", "Clone", "Copy", "PartialEq", "Eq", "PartialOrd", "Ord", "Hash", "AsRef", "Deref", "Borrow", "Into", "Display", "FromStr", "TryFrom" if hv else "From"]
+    for ty in ("f32", "f64"):
+        for variant in range(3):
+            d = b.new(inner_float(ty), tags=list(tags))
+            d.new_unchecked = True
+            if variant == 0:
+                d.vals.append(Vld("finite"))
+                d.derives = ["Debug", "Clone", "Copy", "PartialEq", "Eq", "PartialOrd", "Ord", "AsRef", "Deref", "Borrow", "Into", "Display", "FromStr", "TryFrom"]
+            elif variant == 1:
+                d.vals.append(Vld("finite"))
+                d.vals.append(float_bound("greater_or_equal", ty, "-1.5", None, Fraction(-3, 2), d))
+                d.const_fn = True
+                d.derives = ["Debug", "Clone", "Copy", "PartialEq", "Eq", "PartialOrd", "Ord", "AsRef", "Deref", "Borrow", "Into", "Display", "TryFrom"]
+            else:
+                d.vals.append(float_bound("less", ty, "64.0", None, Fraction(64), d))
+                d.derives = ["Debug", "Clone", "Copy", "PartialEq", "PartialOrd", "AsRef", "Deref", "Borrow", "Into", "Display", "FromStr", "TryFrom"]
+    for variant in range(3):
+        d = b.new(inner_string(), tags=list(tags))
+        d.new_unchecked = True
+        d.sans.append(San("trim"))
+        if variant != 2:
+            d.sans.append(San("lowercase"))
+        if variant != 1:
+            d.vals.append(Vld("not_empty"))
+            d.vals.append(Vld("len_char_max", "6", 6))
+        d.derives = ["Debug", "Clone", "PartialEq", "Eq", "PartialOrd", "Ord", "Hash", "AsRef", "Deref", "Borrow", "Into", "Display", "FromStr", "TryFrom" if variant != 1 else "From"]
+    d = b.new(OTHER_INNERS["vec"], tags=["C01", "C03", "C13", "unchecked"])
+    d.new_unchecked = True
+    add_predicate(d, "!x.is_empty()", "closure")
+    d.derives = ["Debug", "Clone", "PartialEq", "Eq", "PartialOrd", "Ord", "Hash", "AsRef", "Deref", "Borrow", "Into", "TryFrom", "IntoIterator"]
     return b.decls
